@@ -48,6 +48,8 @@ CHECKS.update({
             "4/C15", "Held on generated programs and format pairs (one open known finding: root module that is itself a torch.nn layer).", "FPFormat.quantise as established by C13/C14"),
     "C17": ("history monitor over transform chains: bit snapshots + storage-pointer sets of original and intermediates, per-call outputs/gradients, captured backend-run log records, FPFormat.quantise call counters, swapped-order runs, recipe-then-quantised reference interpreter",
             "4/C17", "All chains of the stated family on generated small modules; compile-terminated chains only in the thorough tier.", "pinned random source; C01-C06/C13-C16 for the reference"),
+    "C18": ("differential monitor: tracked vs untracked module (bit comparison); recorded Metrics vs numpy statistics of tensors captured by an independent instrumented fx.Interpreter run on the captured graph and inputs; icontract postcondition on Metrics.from_tensor; analyse_module checked the same way",
+            "4/C18", "Held on generated programs (one open known finding: rounding-level gradient differences at tensors with >= 3 consumers).", "deterministic re-execution of the captured GraphModule"),
 })
 
 PENDING = {}
